@@ -297,7 +297,29 @@ func (c *ctx) prologue() {
 		for _, e := range evs {
 			seq = append(seq, e.kind)
 		}
-		good := len(evs) == 5 && evs[0].kind == "exec:staging" && strings.HasPrefix(evs[1].kind, "lit:func()") && evs[2].kind == "exec:out:paramExprs" && evs[3].kind == "write:staged" && evs[4].kind == "lit:}()"
+		// shape: exec:staging, lit+, exec:out:paramExprs, lit*, write:staged, lit+
+		stage, pre, post := 0, 0, 0
+		good := true
+		var preLits []ev
+		for _, e := range evs {
+			switch {
+			case e.kind == "exec:staging" && stage == 0:
+				stage = 1
+			case strings.HasPrefix(e.kind, "lit:") && stage == 1:
+				pre++
+				preLits = append(preLits, e)
+			case e.kind == "exec:out:paramExprs" && stage == 1 && pre > 0:
+				stage = 2
+			case strings.HasPrefix(e.kind, "lit:") && stage == 2:
+			case e.kind == "write:staged" && stage == 2:
+				stage = 3
+			case strings.HasPrefix(e.kind, "lit:") && stage == 3:
+				post++
+			default:
+				good = false
+			}
+		}
+		good = good && stage == 3 && post > 0
 		// all unconditional up to early error returns
 		for _, e := range evs {
 			for _, cd := range fc.par.Known(e.call, fd) {
@@ -310,15 +332,21 @@ func (c *ctx) prologue() {
 		}
 		c.s.Check(good, "G12", name+"|order: stage body, open wrapper, prologue(paramExprs), staged body, close", c.pos(fd), strings.Join(seq, " → "), "the generator does not (1) render the body into a staging buffer, (2) open the wrapper, (3) write the prologue from the complete recorded-expression set, (4) write the staged body, (5) close — in that order: user expressions would be evaluated late, out of order, or more than once; saw: "+strings.Join(seq, " → "))
 		// G13
-		if len(evs) >= 2 && strings.HasPrefix(evs[1].kind, "lit:") {
-			open := strings.TrimPrefix(evs[1].kind, "lit:")
-			declared := wrapperIdents(open)
-			key := name + "|wrapper declares no identifier visible to hoisted user expressions"
-			if len(declared) == 0 {
-				c.s.OK("G13", key, c.pos(evs[1].call), "wrapper `"+strings.TrimSpace(open)+"` declares nothing")
-			} else {
-				c.s.Bad("G13", key, c.pos(evs[1].call), fmt.Sprintf("the wrapper `%s` declares %v, which is in scope of the hoisted user expressions that follow: a user expression naming an outer variable `%s` is captured by the wrapper's (nil) result", strings.TrimSpace(open), declared, declared[0]))
-			}
+		var declared []string
+		var opens []string
+		for _, e := range preLits {
+			open := strings.TrimPrefix(e.kind, "lit:")
+			opens = append(opens, strings.TrimSpace(open))
+			declared = append(declared, wrapperIdents(open)...)
+		}
+		key := name + "|wrapper declares no identifier visible to hoisted user expressions"
+		switch {
+		case len(preLits) == 0:
+			c.s.Unk("G13", key, c.pos(fd), "no wrapper literal written before the prologue")
+		case len(declared) == 0:
+			c.s.OK("G13", key, c.pos(preLits[0].call), "text before the prologue `"+strings.Join(opens, " ")+"` declares nothing")
+		default:
+			c.s.Bad("G13", key, c.pos(preLits[0].call), fmt.Sprintf("the wrapper `%s` declares %v, which is in scope of the hoisted user expressions that follow: a user expression naming an outer variable `%s` is captured by the generated declaration", strings.Join(opens, " "), declared, declared[0]))
 		}
 	}
 	// paramExprs sorted by position
